@@ -624,7 +624,7 @@ Lemma applyTP_sane : forall s p a, 0 <= c_maxIdleTimeout (cf s) -> 0 <= c_keepAl
   sane (applyTP s p a) /\ kaInterval (applyTP s p a) <= idleTimeout (applyTP s p a) / 2.
 Proof.
   intros s p a Hi Hk. unfold sane, applyTP. cbn.
-  destruct (0 <? p) eqn:E; destruct (0 <? a) eqn:E'; lia.
+  destruct (0 <? p) eqn:E; destruct (0 <? a) eqn:E'; destruct (0 <? c_ownAdvIdle (cf s)) eqn:E''; lia.
 Qed.
 
 (** the interval also leaves half of the period the PEER advertised (it times out after that, whatever
@@ -632,7 +632,16 @@ Qed.
 Lemma applyTP_respects_peer : forall s p a, 0 < a -> kaInterval (applyTP s p a) <= a / 2.
 Proof.
   intros s p a Ha. unfold applyTP. cbn. assert (E : (0 <? a) = true) by lia. rewrite E.
-  destruct (0 <? p); lia.
+  destruct (0 <? p); destruct (0 <? c_ownAdvIdle (cf s)); lia.
+Qed.
+
+(** ... and half of the period this endpoint itself ADVERTISED (a spec may advertise less than is enforced): the peer
+    uses the minimum of both advertised values *)
+Lemma applyTP_respects_own_advertised : forall s p a, 0 < c_ownAdvIdle (cf s) ->
+  kaInterval (applyTP s p a) <= c_ownAdvIdle (cf s) / 2.
+Proof.
+  intros s p a Ho. unfold applyTP. cbn. assert (E : (0 <? c_ownAdvIdle (cf s)) = true) by lia. rewrite E.
+  destruct (0 <? p); destruct (0 <? a); lia.
 Qed.
 
 (** *** rounds: PING at the armed deadline, answered in time => never idle *)
